@@ -1,8 +1,8 @@
 #!/bin/bash
-# devmut.sh <file> <python-replace old> <new> <pkgs> <fns>  — apply a textual mutation to /repo, run govc, revert
-set -u
-f="$1"; old="$2"; new="$3"; pkgs="$4"; fns="$5"
-python3 - "$f" "$old" "$new" <<'PY'
+if [ -n "$(git -C /repo status --porcelain)" ]; then echo "refusing: /repo has uncommitted changes"; exit 3; fi
+# devmut.sh <file> <old> <new> <prop>  — apply a textual mutation to /repo, run vcheck for the property, revert
+f="$1"; old="$2"; new="$3"; prop="$4"
+python3 - "$f" "$old" "$new" <<'PY' || exit 2
 import sys
 p='/repo/'+sys.argv[1]
 s=open(p).read()
@@ -10,5 +10,5 @@ assert sys.argv[2] in s, "pattern not found"
 open(p,'w').write(s.replace(sys.argv[2],sys.argv[3],1))
 PY
 ( cd /repo && export GOFLAGS=-mod=mod GOPROXY=off GOSUMDB=off GOTOOLCHAIN=local && go build ./... 2>&1 | head -5 )
-/verif/bin/govc -pkgs "$pkgs" -fn "$fns" 2>&1 | grep -E "FAIL|ERROR|VACUOUS|^==" | head -20
-( cd /repo && git checkout -- . )
+/verif/bin/vcheck -p "$prop" 2>&1 | grep -E "VIOLATION|KNOWN|^C[0-9]+:" | cut -c1-200 | head -8
+( cd /repo && git checkout -q -- . )
